@@ -969,6 +969,48 @@ func ruleC09Elements(c *Ctx) {
 			}
 		}
 		c.R.Check(ok, rule, spec.field+":"+spec.kinds.String(), c.P.Pos(m.fn.Pos()), "the element schema is the recursive result for t.Elem()", spec.field+" for kinds "+spec.kinds.String()+" is not the inferred schema of the element type")
+		// the recursive result is nil for an ignored (unsupported) element type: it must be tested, otherwise the
+		// container gets an absent (= unrestricted) element schema and accepts documents that cannot decode
+		for _, st := range c.storesToField(m.fn, spec.field) {
+			ks := m.kf.At(st)
+			if ks == 0 || !ks.SubsetOf(spec.kinds) {
+				continue
+			}
+			fromRec := false
+			for _, src := range traceSources(st.Val) {
+				if ex, isEx := src.(*ssa.Extract); isEx && ex.Index == 0 {
+					if call, isCall := ex.Tuple.(*ssa.Call); isCall && call.Call.StaticCallee() == m.fn {
+						fromRec = true
+					}
+				}
+			}
+			if !fromRec {
+				continue
+			}
+			fa := st.Addr.(*ssa.FieldAddr)
+			tested := false
+			core.EachInstr(st.Parent(), func(i ssa.Instruction) {
+				bo, isBo := i.(*ssa.BinOp)
+				if !isBo || (bo.Op != token.EQL && bo.Op != token.NEQ) {
+					return
+				}
+				for _, pair := range [][2]ssa.Value{{bo.X, bo.Y}, {bo.Y, bo.X}} {
+					k, isK := pair[1].(*ssa.Const)
+					if !isK || !k.IsNil() {
+						continue
+					}
+					if pair[0] == st.Val || sharesSource(pair[0], st.Val) {
+						tested = true
+					}
+					if ld, isLd := pair[0].(*ssa.UnOp); isLd {
+						if fa2, isFa := ld.X.(*ssa.FieldAddr); isFa && fa2.Field == fa.Field && fa2.X == fa.X {
+							tested = true
+						}
+					}
+				}
+			})
+			c.R.Check(tested, rule, spec.field+":ignored-element-tested", c.pos(st), "a nil (ignored) element schema is tested for", "the recursive result stored as "+spec.field+" is never compared with nil: with IgnoreInvalidTypes an unsupported element type (map[string]func()) leaves the keyword absent, so the schema accepts values that do not decode into the type")
+		}
 	}
 }
 
